@@ -31,12 +31,38 @@ func NewLens[S, A any](t hseq.Type[S]) Lens[S, A] {
 	ft := t.Type
 	fv := reflect.TypeOf(new(A)).Elem()
 
+	cat := reflect.TypeOf(new(S)).Elem()
+
 	if ft.String() == fv.String() && ft.AssignableTo(fv) {
+		if !focusable(cat, 0, t.StructField, t.RootOffs+t.Offset) {
+			panic(fmt.Errorf("invalid focus: Lens[%s, %s] field %s is not stored inside the struct (container is not a struct or the field is behind an embedded pointer)", cat, fv, t.Name))
+		}
 		return &lens[S, A]{t}
 	}
 
-	cat := reflect.TypeOf(new(S)).Elem()
 	panic(fmt.Errorf("invalid type: Lens[%s, %s] not compatible with %s", cat.Name(), ft.Name(), fv.Name()))
+}
+
+// focusable reports whether the struct type cat stores, by value, a field with
+// the name and the type of f at byte offset offs. Lenses use pointer arithmetic
+// relative to *S, therefore the focus must be a part of the S memory: S must be
+// a struct and the field must not be reached through an embedded pointer.
+func focusable(cat reflect.Type, base uintptr, f reflect.StructField, offs uintptr) bool {
+	if cat.Kind() != reflect.Struct {
+		return false
+	}
+
+	for i := 0; i < cat.NumField(); i++ {
+		fv := cat.Field(i)
+		if fv.Name == f.Name && fv.Type == f.Type && base+fv.Offset == offs {
+			return true
+		}
+		if fv.Anonymous && fv.Type.Kind() == reflect.Struct && focusable(fv.Type, base+fv.Offset, f, offs) {
+			return true
+		}
+	}
+
+	return false
 }
 
 type lens[S, A any] struct{ hseq.Type[S] }
